@@ -8,7 +8,7 @@ BIN = "h_world"
 # Per property: monitor tags that decide it, op kinds whose results form its projection of the
 # transcript (a model/implementation DIFF on another op kind is somebody else's business).
 PROBE_OPS = {"alive", "walive", "ejoin", "pejoin", "mask", "events"}   # printed by the harness after every mutating op anyway
-OP_ALIAS = {"gget": "get", "ggetmut": "getmut", "gins": "ins", "grem": "rem", "lget": "get", "lgetmut": "getmut", "ldrain2": "rem", "lentry2": "entry_or", "pejoin": "ejoin", "lazy_create_nobuild": "lazy_create"}   # same model ops
+OP_ALIAS = {"gget": "get", "ggetmut": "getmut", "gins": "ins", "uins": "ins", "grem": "rem", "lget": "get", "lgetmut": "getmut", "ldrain2": "rem", "lentry2": "entry_or", "pejoin": "ejoin", "lazy_create_nobuild": "lazy_create"}   # same model ops
 STORE_OPS = ["get", "getmut", "has", "ins", "rem", "entry_or", "entry_rep", "entry_rem", "mut_or_default"]
 PROPS = {
     "C01": {"mon": ["C01"], "proj": ["create", "create_iter", "createw", "lazy_create"], "kind": "ent",
